@@ -312,7 +312,12 @@ def main(argv=None):
                 violations.append((r, c))
         for i in r['inconclusive']:
             inconc.append((r, i))
-    os.makedirs(os.path.join(VERIF, 'replays', pid), exist_ok=True)
+    rdir = os.path.join(VERIF, 'replays', pid)
+    os.makedirs(rdir, exist_ok=True)
+    if not a.only and not a.limit:
+        for fn in os.listdir(rdir):
+            if fn.endswith('.json'):
+                os.remove(os.path.join(rdir, fn))
     for hid, (k, n) in sorted(known_hits.items()):
         print(f"KNOWN-FINDING: property={pid} {k['what']} [{hid}; re-found in {n} configuration(s)]")
     printed = set()
@@ -331,7 +336,7 @@ def main(argv=None):
             print(f"  real-code failures: {json.dumps(c['replay_failures'][:2])[:400]}")
             printed.add(key)
     for r, i in inconc[:12]:
-        print(f"INCONCLUSIVE harness={r['harness']} cfg={json.dumps(r['cfg'])} {json.dumps(i)[:600]}")
+        print(f"INCONCLUSIVE harness={r['harness']} cfg={json.dumps(r['cfg'])} {json.dumps(i)[:420]}")
     if len(inconc) > 12:
         print(f'... {len(inconc)} inconclusive items in total')
     agg = lambda k: sum(r[k] for r in results)
